@@ -839,6 +839,8 @@ class C23(Spec):
             case["names"] = [rng.choice(pats), rng.choice(pats)]
             case["first"] = rng.choice([0, 1, 8, 9, 98, 99, 999, 7])
             case["listdir_seed"] = rng.randrange(1 << 30)
+        if rng.random() < 0.25:
+            case["rewrite"] = True
         return case
 
     def shrink(self, case):
@@ -850,11 +852,13 @@ class C23(Spec):
             yield dict(case, pic_kind="zero")
         if case.get("names"):
             yield {k: v for k, v in case.items() if k not in ("names", "first", "listdir_seed")}
+        if case.get("rewrite"):
+            yield {k: v for k, v in case.items() if k != "rewrite"}
 
     def execute(self, case):
         stats = Counter()
         fmt = case["fmt"]
-        events = [("case", sorted(fmt.items()), case["npics"], case["pic_seed"], case["pic_kind"], case["pic_num"], repr(case["faults"]), case["mode"], case.get("names"), case.get("first"), case.get("listdir_seed"))]
+        events = [("case", sorted(fmt.items()), case["npics"], case["pic_seed"], case["pic_kind"], case["pic_num"], repr(case["faults"]), case["mode"], case.get("names"), case.get("first"), case.get("listdir_seed"), case.get("rewrite"))]
         vp = c23_vp(fmt)
         pcm = PictureCodingModes(fmt["pcm"])
         dims = c23_dims(fmt)
@@ -888,6 +892,20 @@ class C23(Spec):
                     hgot, used = h_read_raw(fs.get(nm("a", i) + ".raw"), dims)
                     if used != len(fs.get(nm("a", i) + ".raw")) or any(hgot[c] != pic[c] for c in ("Y", "C1", "C2")):
                         return viol("C23/on-disk-format", "raw file written for picture %d does not hold the samples in the documented planar little-endian layout" % i)
+                if case.get("rewrite"):
+                    # the files are overwritten in place with other pictures of
+                    # the same format and numbers (same size, same metadata):
+                    # what is read afterwards must be the new content
+                    pics = [c23_picture(fmt, case["pic_seed"] + 1000 + i, "noise", (case["pic_num"] + i) & 0xFFFFFFFF) for i in range(case["npics"])]
+                    for side in ("a", "b"):
+                        for i, pic in enumerate(pics):
+                            file_format.write(pic, vp, pcm, nm(side, i) + ".raw")
+                    for side in ("a", "b"):
+                        for i, pic in enumerate(pics):
+                            got, gvp, gpcm = file_format.read(nm(side, i) + ".raw")
+                            if got != pic:
+                                return viol("C23/stale-read-after-overwrite", "picture %d of side %s was overwritten in place; reading it back returns other samples than were written" % (i, side))
+                    stats["overwritten-in-place"] += 1
             except Exception as e:  # noqa: BLE001
                 return viol(exc_sig("C23/write-read-raised", e), "write/read raised:\n%s" % short_tb(e))
             # --- at-rest faults on side b
